@@ -278,7 +278,7 @@ _ATTACK_SYNC_UNITS = [
 
 PROPS["C02"] = {
     "title": "Every started hit yields exactly one result and the attack ends cleanly",
-    "units": [{"name": "bubble", "pkg": "libsync", "go": "go1.26.8", "run": "^TestC02(Random|Exhaustive|TwoAttacks)", "scale_thorough": 6},
+    "units": [{"name": "bubble", "pkg": "libsync", "go": "go1.26.8", "run": "^TestC02(Random|Exhaustive|TwoAttacks|Restart)", "scale_thorough": 6},
               {"name": "stoprace", "pkg": "lib", "run": "^TestC02StopRace", "shards_quick": 2, "shards_thorough": 8},
               {"name": "dialpath", "pkg": "lib", "run": "^TestC02(DialPath|SourceFails)", "shards_quick": 2, "shards_thorough": 8},
               {"name": "loopends", "pkg": "libsync", "go": "go1.26.8", "run": "^TestC04Loop", "env": {"VERIF_AS": "C02"}, "shards_quick": 2, "shards_thorough": 8},
@@ -309,7 +309,8 @@ PROPS["C02"] = {
 
 PROPS["C03"] = {
     "title": "Requests in flight never exceed max-workers and free capacity is used",
-    "units": [{"name": "bubble", "pkg": "libsync", "go": "go1.26.8", "run": "^(TestC02(Random|Exhaustive|TwoAttacks)|TestC03RealPacer)", "env": {"VERIF_AS": "C03"}, "scale_thorough": 6}],
+    "units": [{"name": "bubble", "pkg": "libsync", "go": "go1.26.8", "run": "^(TestC02(Random|Exhaustive|TwoAttacks)|TestC03RealPacer)", "env": {"VERIF_AS": "C03"}, "scale_thorough": 6},
+              {"name": "realtransport", "pkg": "lib", "run": "^TestC03RealTransport", "shards_quick": 2, "shards_thorough": 8}],
     "rule": "Same bubble histories as C02 (exhaustive up to length 4/6/7 over workers 0..3 x max-workers 1..3, random "
             "up to 200 actions with max-workers up to 64, any initial worker count incl. 0 and > max). Non-trivial = a "
             "tick while all max workers were busy (pending hit) or a stop cause with hits in flight; distinct = (config, "
